@@ -59,6 +59,9 @@ func exprDepth(v ssa.Value, d int) string {
 		}
 		return x.Op.String() + exprDepth(x.X, d+1)
 	case *ssa.BinOp:
+		if IsRangeIndex(x) {
+			return "#i"
+		}
 		return "(" + exprDepth(x.X, d+1) + " " + x.Op.String() + " " + exprDepth(x.Y, d+1) + ")"
 	case *ssa.FieldAddr:
 		if p := PathOf(x); p != "" {
@@ -104,6 +107,9 @@ func exprDepth(v ssa.Value, d int) string {
 		}
 		return exprDepth(x.X, d+1) + "[" + lo + ":" + hi + "]"
 	case *ssa.Phi:
+		if IsRangeIndex(x) {
+			return "#i"
+		}
 		if s := shortCircuit(x, d); s != "" {
 			return s
 		}
